@@ -174,6 +174,69 @@ theorem c13_forward (env : Env) (i : Nat) (code : UInt8) (body : Bytes)
   simp only [forward, exchange, handle, h31, h32, h33, h34, h35, hstd, ↓reduceIte, Bool.false_eq_true]
   cases env.forward i (code :: body) <;> rfl
 
+/-- a request with a code the server does not interpret reaches the served agent's `Forward` as
+    it is, and the reply comes back as it is -/
+theorem exchange_uninterpreted (env : Env) (i : Nat) (code : UInt8) (body : Bytes)
+    (hc : code ∉ ([31, 32, 33, 34, 35] : List UInt8)) (hs : code ∉ stdCodes) :
+    exchange env i (code :: body) = env.forward i (code :: body) := by
+  have h31 : code ≠ 31 := fun h => hc (by simp [h])
+  have h32 : code ≠ 32 := fun h => hc (by simp [h])
+  have h33 : code ≠ 33 := fun h => hc (by simp [h])
+  have h34 : code ≠ 34 := fun h => hc (by simp [h])
+  have h35 : code ≠ 35 := fun h => hc (by simp [h])
+  have hstd : stdCodes.contains code = false := by simpa using hs
+  simp only [exchange, handle, h31, h32, h33, h34, h35, hstd, ↓reduceIte, Bool.false_eq_true]
+  cases env.forward i (code :: body) <;> rfl
+
+theorem decAddSmartcard_cons (r : Bytes) : decAddSmartcard (26 :: r) = (match getString r with
+    | some (id, r1) => (match getString r1 with | some (pin, cs) => some (id, pin, cs) | none => none)
+    | none => none) := rfl
+
+theorem decAddSmartcard_of (r a b r1 r2 : Bytes) (h1 : getString r = some (a, r1))
+    (h2 : getString r1 = some (b, r2)) : decAddSmartcard (26 :: r) = some (a, b, r2) := by
+  rw [decAddSmartcard_cons, h1]; simp only []; rw [h2]
+
+/-- Smartcard keys: the server does not interpret codes 26 and 21, so the served agent's `Forward`
+    receives the client's request byte for byte, the request reads back as the reader id, the PIN
+    and the constraints the caller gave, and the caller's result is decided by the first byte of
+    the agent's reply alone: success (6) is success, anything else a failure, an empty reply and a
+    lost connection are errors. -/
+theorem c13_smartcard_add (env : Env) (i : Nat) (id pin : Bytes) (lt : Bool) (secs : Nat) (confirm : Bool)
+    (hid : small id) (hpin : small pin) :
+    addSmartcardKey env i id pin lt secs confirm =
+      smartcardRes (env.forward i (encAddSmartcard id pin lt secs confirm)) ∧
+    decAddSmartcard (encAddSmartcard id pin lt secs confirm) =
+      some (id, pin, smartcardConstraints lt secs confirm) := by
+  constructor
+  · unfold addSmartcardKey encAddSmartcard
+    rw [exchange_uninterpreted env i 26 _ (by simp) (by simp [stdCodes])]
+  · unfold encAddSmartcard
+    rw [List.append_assoc]
+    exact decAddSmartcard_of _ _ _ _ _ (getString_putString id _ hid) (getString_putString pin _ hpin)
+
+theorem c13_smartcard_remove (env : Env) (i : Nat) (id pin : Bytes) (hid : small id) (hpin : small pin) :
+    removeSmartcardKey env i id pin = smartcardRes (env.forward i (encRemoveSmartcard id pin)) ∧
+    decRemoveSmartcard (encRemoveSmartcard id pin) = some (id, pin) := by
+  constructor
+  · unfold removeSmartcardKey encRemoveSmartcard
+    rw [exchange_uninterpreted env i 21 _ (by simp) (by simp [stdCodes])]
+  · simp only [decRemoveSmartcard, encRemoveSmartcard]
+    exact getTwoStrings_put id pin hid hpin
+
+/-- the result depends on the first byte of the agent's reply only -/
+theorem c13_smartcard_result (r : Option Bytes) :
+    (smartcardRes r = .ok ↔ ∃ rest, r = some (6 :: rest)) ∧
+    (smartcardRes r = .connErr ↔ r = none) ∧ (smartcardRes r = .empty ↔ r = some []) := by
+  cases r with
+  | none => simp [smartcardRes]
+  | some b =>
+    cases b with
+    | nil => simp [smartcardRes]
+    | cons x xs =>
+      by_cases hx : x = 6
+      · subst hx; simp [smartcardRes]
+      · simp [smartcardRes, hx]
+
 /-- Slot listing: for every output of the PIV tool, in order, the two bytes after `Slot ` of every
     line of at least seven bytes that starts with `Slot`; nothing else; never a crash
     (`Bridge.Wire.slots_bridge` pins the length test and the slice in the source). -/
